@@ -92,6 +92,8 @@ def to_linen_var(vs: variablelib.VariableState) -> meta.AxisMetadata:
     linen_type = metadata['linen_meta_type']
     if hasattr(linen_type, 'from_nnx_metadata'):
       return linen_type.from_nnx_metadata({'value': vs.value, **metadata})
+    # `linen_meta_type` is the bridge's own bookkeeping, not a field of the box
+    metadata = {k: v for k, v in metadata.items() if k != 'linen_meta_type'}
     return linen_type(vs.value, **metadata)
   if is_vanilla_variable(vs):
     return vs.value
